@@ -147,7 +147,11 @@ theorem good_callback {go} (hgo : GoOk go) {d owner react st timeouts rec s}
   obtain ⟨hw, hof, hdf⟩ := hpre
   unfold bodyCallback
   cases owner with
-  | probe => exact Or.inr ⟨hw, hdf, StepS.refl _ _ _ _, trivial⟩
+  | probe pid =>
+    -- `server_probe_cb` only resets `probe_pending`, which the skeleton does not see
+    have hsk : (s.modServer pid fun v => { v with probePending := false }).sk = s.sk := by
+      rw [sk_modServer_same]; intro; rfl
+    exact Or.inr ⟨Wf.of_sk_eq hsk hw, by rw [hsk]; exact hdf, by rw [hsk]; exact StepS.refl _ _ _ _, trivial⟩
   | user tok =>
     obtain ⟨h1, h2, h3⟩ := hof
     rcases hgo.2 d (.userCb tok react st timeouts (digest rec)) s
